@@ -1,8 +1,819 @@
-//! C13 — not implemented yet
-use vcore::{Args, Check};
+//! C13 — imported chain data converges to the canonical chain under any roll-backs.
+//!
+//! Model-based stateful check. System under test (see `sut.rs`): the real importer stack of the signer over a
+//! file-backed sqlite repository and both signable builders. Environment model (see `simnode.rs`): `SimNode`, a
+//! chain-sync follower model with the contract of the real `PallasChainReader`.
+//!
+//! A case is a configuration + a history of operations (extend the chain, switch to a fork, import up to a target —
+//! optionally with a chain switch in the middle of the import and/or a store failure at the j-th mutating store call —
+//! restart). After every successful import the oracle compares the database with
+//!   (1) an independent harness-side computation from the canonical chain (blocks, transactions, and both block-range
+//!       root tables recomputed with `MKTree` from the model chain), and
+//!   (2) a fresh database that imported the current canonical chain once from scratch up to the same target
+//!       (stored tables + the Merkle roots of both signable builders at the target and at earlier, aligned beacons).
+
+use std::collections::{BTreeMap, BTreeSet};
+use std::path::PathBuf;
+
+use mithril_common::crypto_helper::{MKTree, MKTreeStoreInMemory};
+use mithril_common::entities::{BlockNumber, CardanoBlockTransactionMkTreeNode, CardanoBlockWithTransactions, SlotNumber};
+use proptest::prelude::*;
+use serde::{Deserialize, Serialize};
+use vcore::util::Scratch;
+use vcore::{Args, Check, Report, pick_index};
+
+use crate::simnode::{Blk, Events, Idle, MidFork, Node, SharedNode, World};
+use crate::sut::{Dump, INJECTED, StackCfg, Sut};
+use crate::validate;
+
+pub const RANGE: u64 = 15;
+const MAX_CHAIN: usize = 130;
+
+// ------------------------------------------------------------------------------------------------ case
+
+#[derive(Debug, Clone, Serialize, Deserialize)]
+pub struct Cfg {
+    /// `max_roll_forwards_per_poll` of the block scanner
+    pub max_per_poll: u8,
+    /// `transactions_import_block_chunk_size`
+    pub chunk: u16,
+    /// `enable_transaction_pruning` + `network_security_parameter` (blocks to keep); with pruning the generator never
+    /// switches to a fork deeper than this (documented meaning of the parameter: no roll-back beyond it)
+    pub prune_keep: Option<u8>,
+    /// security parameter of the signing configuration (targets are derived from `tip - sp`)
+    pub sp: u8,
+    pub first_no: u8,
+    pub first_slot: u8,
+    pub initial_blocks: u8,
+    pub seed: u16,
+    /// the follower's second request at the tip runs into the reader's time-out instead of being answered by the next block
+    pub idle_timeout: bool,
+}
+
+#[derive(Debug, Clone, Serialize, Deserialize, PartialEq)]
+pub enum ForkSel {
+    /// depth 1..=sp from the tip (what happens every few minutes on a real network)
+    Shallow,
+    /// uniform depth over the whole chain
+    Raw,
+    /// fork point a few blocks below the highest stored block
+    BelowHighestStored,
+    /// fork point = last block of a stored block range (+ delta)
+    RangeBoundary(i8),
+    /// fork point = first stored block (it is kept)
+    FirstStored,
+    /// fork point = the block before the first stored block (origin when nothing was pruned)
+    BeforeFirstStored,
+    /// fork point = highest stored block (resume point stays valid)
+    AtHighestStored,
+}
+
+#[derive(Debug, Clone, Serialize, Deserialize, PartialEq)]
+pub enum TargetSel {
+    /// `CardanoTransactionsSigningConfig::compute_block_number_to_be_signed` with step 15
+    CtxBeacon,
+    /// `CardanoBlocksTransactionsSigningConfig::compute_block_number_to_be_signed` with step 15
+    CbtxBeacon,
+    /// the preloader: tip - offset
+    Preload,
+    Raw,
+    Tip,
+    /// the previous target again
+    Same,
+}
+
+#[derive(Debug, Clone, Serialize, Deserialize)]
+pub enum Op {
+    Extend { n: u8, seed: u16 },
+    Fork { sel: ForkSel, raw: u16, extra: u8, seed: u16 },
+    Import {
+        sel: TargetSel,
+        raw: u16,
+        /// chain switch while the import is running
+        mid: Option<MidFork>,
+        /// the j-th mutating store call of this import fails before touching the database; the process restarts
+        crash: Option<u8>,
+        /// which earlier beacons are compared as well
+        beacons: (u16, u16),
+    },
+    Restart,
+}
+
+#[derive(Debug, Clone, Serialize, Deserialize)]
+pub struct Case {
+    pub cfg: Cfg,
+    pub ops: Vec<Op>,
+}
+
+fn cfg_strategy() -> impl Strategy<Value = Cfg> {
+    (
+        1u8..=7,
+        prop_oneof![Just(4u16), Just(7), Just(15), Just(20), Just(50), Just(1000)],
+        prop_oneof![3 => Just(None), 2 => (16u8..=45).prop_map(Some)],
+        prop_oneof![Just(0u8), Just(2), Just(5), Just(10), Just(20)],
+        0u8..=1,
+        1u8..=5,
+        16u8..=50,
+        any::<u16>(),
+        prop::bool::weighted(0.2),
+    )
+        .prop_map(|(max_per_poll, chunk, prune_keep, sp, first_no, first_slot, initial_blocks, seed, idle_timeout)| Cfg {
+            max_per_poll,
+            chunk,
+            prune_keep,
+            sp,
+            first_no,
+            first_slot,
+            initial_blocks,
+            seed,
+            idle_timeout,
+        })
+}
+
+fn mid_strategy() -> impl Strategy<Value = MidFork> {
+    (0u8..=24, prop::bool::weighted(0.3), 0u8..=20, 0u8..=3, any::<u16>())
+        .prop_map(|(after_reads, to_from, back, extra, seed)| MidFork { after_reads, to_from, back, extra, seed })
+}
+
+fn fork_sel_strategy() -> impl Strategy<Value = ForkSel> {
+    prop_oneof![
+        2 => Just(ForkSel::Shallow),
+        2 => Just(ForkSel::Raw),
+        4 => Just(ForkSel::BelowHighestStored),
+        3 => (-1i8..=1).prop_map(ForkSel::RangeBoundary),
+        1 => Just(ForkSel::FirstStored),
+        1 => Just(ForkSel::BeforeFirstStored),
+        2 => Just(ForkSel::AtHighestStored),
+    ]
+}
+
+fn target_sel_strategy() -> impl Strategy<Value = TargetSel> {
+    prop_oneof![
+        3 => Just(TargetSel::CtxBeacon),
+        3 => Just(TargetSel::CbtxBeacon),
+        2 => Just(TargetSel::Preload),
+        3 => Just(TargetSel::Raw),
+        2 => Just(TargetSel::Tip),
+        1 => Just(TargetSel::Same),
+    ]
+}
+
+fn op_strategy() -> impl Strategy<Value = Op> {
+    prop_oneof![
+        5 => (1u8..=20, any::<u16>()).prop_map(|(n, seed)| Op::Extend { n, seed }),
+        5 => (fork_sel_strategy(), any::<u16>(), 0u8..=4, any::<u16>())
+            .prop_map(|(sel, raw, extra, seed)| Op::Fork { sel, raw, extra, seed }),
+        7 => (
+            target_sel_strategy(),
+            any::<u16>(),
+            prop_oneof![4 => Just(None), 1 => mid_strategy().prop_map(Some)],
+            prop_oneof![5 => Just(None), 1 => (1u8..=12).prop_map(Some)],
+            (any::<u16>(), any::<u16>())
+        )
+            .prop_map(|(sel, raw, mid, crash, beacons)| Op::Import { sel, raw, mid, crash, beacons }),
+        2 => Just(Op::Restart),
+    ]
+}
+
+fn case_strategy() -> impl Strategy<Value = Case> {
+    (cfg_strategy(), prop::collection::vec(op_strategy(), 3..=25)).prop_map(|(cfg, ops)| Case { cfg, ops })
+}
+
+// ------------------------------------------------------------------------------------------------ expectations
+
+/// Independent expectation of both block-range root tables for an import of `chain` up to `t`:
+/// one root per complete range [s, s+15) with s+14 <= t that contains at least one block (resp. one transaction).
+pub fn expected_roots(chain: &[Blk], t: u64) -> (Vec<(u64, u64, String)>, Vec<(u64, u64, String)>) {
+    let mut new_roots = vec![];
+    let mut legacy = vec![];
+    let mut s = 0u64;
+    while s + RANGE - 1 <= t {
+        let blocks: Vec<&Blk> = chain.iter().filter(|b| b.number >= s && b.number < s + RANGE).collect();
+        let nodes: BTreeSet<CardanoBlockTransactionMkTreeNode> = blocks
+            .iter()
+            .flat_map(|b| {
+                CardanoBlockWithTransactions::new(b.hash_hex(), BlockNumber(b.number), SlotNumber(b.slot), b.txs.clone())
+                    .into_mk_tree_node()
+            })
+            .collect();
+        if !nodes.is_empty() {
+            let root = MKTree::<MKTreeStoreInMemory>::new_from_iter(nodes).and_then(|t| t.compute_root()).expect("mktree");
+            new_roots.push((s, s + RANGE, root.to_hex()));
+        }
+        let mut txs: Vec<(u64, String)> =
+            blocks.iter().flat_map(|b| b.txs.iter().map(|t| (b.number, t.clone()))).collect();
+        txs.sort();
+        if !txs.is_empty() {
+            let leaves: Vec<mithril_common::crypto_helper::MKTreeNode> =
+                txs.iter().map(|(_, h)| mithril_common::crypto_helper::MKTreeNode::new(h.as_bytes().to_vec())).collect();
+            let root = MKTree::<MKTreeStoreInMemory>::new_from_iter(leaves).and_then(|t| t.compute_root()).expect("mktree");
+            legacy.push((s, s + RANGE, root.to_hex()));
+        }
+        s += RANGE;
+    }
+    (new_roots, legacy)
+}
+
+/// Independent expectation of the stored blocks / transactions: the canonical chain filtered to `lo..=t`.
+pub fn expected_blocks(chain: &[Blk], lo: u64, t: u64) -> (Vec<(u64, u64, String)>, Vec<(u64, String, u64, String)>) {
+    let mut blocks = vec![];
+    let mut txs = vec![];
+    for b in chain.iter().filter(|b| b.number >= lo && b.number <= t) {
+        blocks.push((b.number, b.slot, b.hash_hex()));
+        for t in &b.txs {
+            txs.push((b.number, t.clone(), b.slot, b.hash_hex()));
+        }
+    }
+    blocks.sort();
+    txs.sort();
+    (blocks, txs)
+}
+
+fn first_diff<T: PartialEq + std::fmt::Debug>(got: &[T], want: &[T]) -> String {
+    for i in 0..got.len().max(want.len()) {
+        if got.get(i) != want.get(i) {
+            return format!("at #{i}: stored {:?} / expected {:?} (stored {} rows, expected {})", got.get(i), want.get(i), got.len(), want.len());
+        }
+    }
+    "equal".into()
+}
+
+// ------------------------------------------------------------------------------------------------ run
+
+#[derive(Clone, Debug)]
+pub struct FreshView {
+    pub dump: Dump,
+    pub ctx_root: Result<String, String>,
+    pub cbtx_root: Result<String, String>,
+}
+
+pub struct Run {
+    pub scratch: Scratch,
+    pub cfg: Cfg,
+    pub stack: StackCfg,
+    pub node: SharedNode,
+    pub sut: Option<Sut>,
+    pub db: PathBuf,
+    /// highest target any import was asked for
+    pub min_target: u64,
+    pub version: u64,
+    fresh_cache: BTreeMap<(u64, u64), FreshView>,
+    fresh_n: u64,
+    // history classification
+    pub fork_since_import: bool,
+    pub deep_fork_since_import: bool,
+    pub restart_since_fork: bool,
+    /// first trigger of a suspected divergence mechanism seen in this history
+    pub taint: Option<&'static str>,
+    pub labels: BTreeSet<String>,
+    pub shape: Vec<String>,
+    pub nontrivial: bool,
+    pub checks: u32,
+}
+
+pub const KEY_SKIP: &str = "import-skipped-after-fork-below-highest-stored-block";
+pub const KEY_BELOW_ALL: &str = "rollback-below-every-stored-block-deletes-nothing";
+pub const KEY_RB_FROM: &str = "rollback-to-scan-start-point-ignored-after-forwards";
+
+pub enum Verdict {
+    Ok,
+    Violation(String, String),
+}
+
+impl Run {
+    pub fn new(cfg: &Cfg) -> Run {
+        let scratch = Scratch::new("c13");
+        let db = scratch.path().join("cardano-transaction.sqlite3");
+        let mut world = World::new(cfg.first_no as u64, cfg.first_slot as u64);
+        world.extend(cfg.initial_blocks as usize, cfg.seed as u64);
+        let node = Node::shared(world);
+        node.lock().unwrap().max_fork_depth = cfg.prune_keep.map(|k| k as usize);
+        if cfg.idle_timeout {
+            node.lock().unwrap().idle = Idle::Timeout;
+        }
+        let stack = StackCfg {
+            max_per_poll: cfg.max_per_poll.max(1) as usize,
+            chunk: cfg.chunk.max(1) as u64,
+            prune_keep: cfg.prune_keep.map(|k| k as u64),
+        };
+        let sut = Sut::open(&db, node.clone(), &stack).expect("open database");
+        Run {
+            scratch,
+            cfg: cfg.clone(),
+            stack,
+            node,
+            sut: Some(sut),
+            db,
+            min_target: 1,
+            version: 0,
+            fresh_cache: BTreeMap::new(),
+            fresh_n: 0,
+            fork_since_import: false,
+            deep_fork_since_import: false,
+            restart_since_fork: false,
+            taint: None,
+            labels: BTreeSet::new(),
+            shape: vec![],
+            nontrivial: false,
+            checks: 0,
+        }
+    }
+
+    fn sut(&self) -> &Sut {
+        self.sut.as_ref().unwrap()
+    }
+
+    pub fn chain(&self) -> Vec<Blk> {
+        self.node.lock().unwrap().world.chain.clone()
+    }
+
+    pub fn restart(&mut self) {
+        self.sut = None; // drops importer, scanner, reader, repository and the connection pool
+        self.sut = Some(Sut::open(&self.db, self.node.clone(), &self.stack).expect("re-open database"));
+    }
+
+    async fn stored_bounds(&self) -> Option<(u64, u64)> {
+        let blocks = self.sut().repo.get_all_blocks().await.expect("read blocks");
+        let lo = blocks.iter().map(|b| *b.block_number).min()?;
+        let hi = blocks.iter().map(|b| *b.block_number).max()?;
+        Some((lo, hi))
+    }
+
+    pub fn extend(&mut self, n: usize, seed: u64) {
+        let len = self.node.lock().unwrap().world.chain.len();
+        let n = n.min(MAX_CHAIN.saturating_sub(len));
+        if n == 0 {
+            self.shape.push("e0".into());
+            return;
+        }
+        self.node.lock().unwrap().extend(n, seed);
+        self.version += 1;
+        self.shape.push("E".into());
+    }
+
+    pub async fn fork(&mut self, sel: &ForkSel, raw: u16, extra: u8, seed: u16) {
+        let (len, first_no) = {
+            let n = self.node.lock().unwrap();
+            (n.world.chain.len(), n.world.first_no)
+        };
+        if len == 0 {
+            return;
+        }
+        let bounds = self.stored_bounds().await;
+        let keep_of_number = |n: i64| -> usize {
+            // keep all blocks with number <= n
+            if n < first_no as i64 { 0 } else { ((n as u64 - first_no) as usize + 1).min(len) }
+        };
+        let sel_eff = if bounds.is_none() && !matches!(sel, ForkSel::Shallow | ForkSel::Raw) { ForkSel::Raw } else { sel.clone() };
+        let (lo, hi) = bounds.unwrap_or((first_no, first_no));
+        let mut keep = match &sel_eff {
+            ForkSel::Shallow => len.saturating_sub(1 + raw as usize % (self.cfg.sp.max(1) as usize)),
+            ForkSel::Raw => len - 1 - pick_index(raw, len),
+            ForkSel::BelowHighestStored => keep_of_number(hi as i64 - 1 - (raw % 20) as i64),
+            ForkSel::RangeBoundary(delta) => {
+                let count = ((hi + 1) / RANGE) as usize; // boundaries 15k-1 <= hi, k >= 1
+                if count == 0 {
+                    len - 1 - pick_index(raw, len)
+                } else {
+                    let k = 1 + pick_index(raw, count) as i64;
+                    keep_of_number(15 * k - 1 + *delta as i64)
+                }
+            }
+            ForkSel::FirstStored => keep_of_number(lo as i64),
+            ForkSel::BeforeFirstStored => keep_of_number(lo as i64 - 1),
+            ForkSel::AtHighestStored => keep_of_number(hi as i64),
+        };
+        keep = keep.min(len - 1);
+        if let Some(k) = self.cfg.prune_keep {
+            keep = keep.max(len.saturating_sub(k as usize));
+        }
+        let depth = len - keep;
+        let regrow = depth + (extra as usize).min(MAX_CHAIN.saturating_sub(len).max(0));
+        self.node.lock().unwrap().fork(keep, regrow, seed as u64);
+        self.version += 1;
+        // classification
+        let fork_point_number: i64 = first_no as i64 + keep as i64 - 1; // number of the last kept block (first_no-1 = origin)
+        self.fork_since_import = true;
+        self.restart_since_fork = false;
+        let mut tag = "Fs";
+        if let Some((lo, hi)) = bounds {
+            if fork_point_number < hi as i64 {
+                self.deep_fork_since_import = true;
+                self.labels.insert("fork:below-highest-stored".into());
+                tag = "Fd";
+                if (fork_point_number + 1) % RANGE as i64 == 0 && fork_point_number >= 0 {
+                    self.labels.insert("fork:at-range-boundary".into());
+                    tag = "Fb";
+                }
+                if fork_point_number == lo as i64 {
+                    self.labels.insert("fork:to-first-stored-block".into());
+                    tag = "F1";
+                }
+                if fork_point_number < lo as i64 {
+                    self.labels.insert("fork:before-first-stored-block".into());
+                    tag = "F0";
+                }
+            } else if fork_point_number == hi as i64 {
+                self.labels.insert("fork:at-highest-stored".into());
+                tag = "Fh";
+            } else {
+                self.labels.insert("fork:above-stored-data".into());
+            }
+        }
+        if keep == 0 {
+            self.labels.insert("fork:to-origin".into());
+        }
+        self.shape.push(tag.into());
+    }
+
+    pub fn target(&self, sel: &TargetSel, raw: u16) -> Option<u64> {
+        let tip = self.node.lock().unwrap().world.tip_number()?;
+        if tip < 1 {
+            return None;
+        }
+        let sp = self.cfg.sp as u64;
+        let t = match sel {
+            TargetSel::CtxBeacon => (tip.saturating_sub(sp) / RANGE * RANGE).saturating_sub(1),
+            TargetSel::CbtxBeacon => tip.saturating_sub(sp) / RANGE * RANGE,
+            TargetSel::Preload => tip.saturating_sub(raw as u64 % (sp + 1)),
+            TargetSel::Raw => {
+                let lo = self.min_target.min(tip);
+                lo + pick_index(raw, (tip - lo + 1) as usize) as u64
+            }
+            TargetSel::Tip => tip,
+            TargetSel::Same => self.min_target,
+        };
+        Some(t.max(self.min_target).min(tip).max(1))
+    }
+
+    /// "import the resulting canonical chain once from scratch up to the same target" with the same stack configuration
+    pub async fn fresh(&mut self, t: u64) -> FreshView {
+        if let Some(v) = self.fresh_cache.get(&(self.version, t)) {
+            return v.clone();
+        }
+        self.fresh_n += 1;
+        let db = self.scratch.path().join(format!("fresh-{}.sqlite3", self.fresh_n));
+        let world = {
+            let n = self.node.lock().unwrap();
+            let mut w = n.world.clone();
+            w.mempool.clear();
+            w
+        };
+        let node = Node::shared(world);
+        let sut = Sut::open(&db, node, &self.stack).expect("open fresh database");
+        sut.import(t).await.unwrap_or_else(|e| panic!("import of the plain canonical chain into a fresh database failed: {e:?}"));
+        let dump = sut.dump().await.expect("dump fresh");
+        let ctx_root = sut.ctx_root(t).await.map_err(|e| format!("{e:#}"));
+        let cbtx_root = sut.cbtx_root(t).await.map_err(|e| format!("{e:#}"));
+        drop(sut);
+        let _ = std::fs::remove_file(&db);
+        let v = FreshView { dump, ctx_root, cbtx_root };
+        self.fresh_cache.insert((self.version, t), v.clone());
+        v
+    }
+
+    fn key_for(&self, table: &str) -> String {
+        match self.taint {
+            Some(k) => k.to_string(),
+            None => format!("divergence:{table}"),
+        }
+    }
+
+    /// The oracle, after a successful `Import(t)`.
+    pub async fn oracle(&mut self, t: u64, beacons: (u16, u16), ctx: &str) -> Verdict {
+        self.checks += 1;
+        let chain = self.chain();
+        let hist = self.sut().dump().await.expect("dump");
+        let pruning = self.cfg.prune_keep.is_some();
+        let first_no = self.cfg.first_no as u64;
+
+        // (1) independent expectation
+        let lo_hist = hist.blocks.first().map(|b| b.0).unwrap_or(first_no);
+        let lo = if pruning { lo_hist } else { first_no };
+        let (exp_blocks, exp_txs) = expected_blocks(&chain, lo, t);
+        if hist.blocks != exp_blocks {
+            return Verdict::Violation(
+                self.key_for("blocks"),
+                format!("{ctx}: stored blocks differ from the canonical chain <= {t}: {}", first_diff(&hist.blocks, &exp_blocks)),
+            );
+        }
+        if hist.txs != exp_txs {
+            return Verdict::Violation(
+                self.key_for("transactions"),
+                format!("{ctx}: stored transactions differ from the canonical chain <= {t}: {}", first_diff(&hist.txs, &exp_txs)),
+            );
+        }
+        if let Some(keep) = self.cfg.prune_keep {
+            // the pruner may only remove blocks older than `keep` blocks below the last complete range
+            let last_range_start = ((t + 1) / RANGE).saturating_sub(1) * RANGE;
+            let bound = last_range_start.saturating_sub(keep as u64).max(first_no);
+            if lo_hist > bound {
+                return Verdict::Violation(
+                    self.key_for("over-pruned"),
+                    format!("{ctx}: first stored block {lo_hist} although blocks from {bound} must be kept (target {t}, keep {keep})"),
+                );
+            }
+        }
+        let (exp_roots, exp_legacy) = expected_roots(&chain, t);
+        if hist.roots != exp_roots {
+            return Verdict::Violation(
+                self.key_for("block-range-roots"),
+                format!("{ctx}: stored block range roots differ from the recomputation over the canonical chain <= {t}: {}", first_diff(&hist.roots, &exp_roots)),
+            );
+        }
+        if hist.legacy_roots != exp_legacy {
+            return Verdict::Violation(
+                self.key_for("legacy-block-range-roots"),
+                format!("{ctx}: stored legacy block range roots differ from the recomputation over the canonical chain <= {t}: {}", first_diff(&hist.legacy_roots, &exp_legacy)),
+            );
+        }
+
+        // (2) differential against a fresh import of the canonical chain
+        let fresh = self.fresh(t).await;
+        let lo_common = lo_hist.max(fresh.dump.blocks.first().map(|b| b.0).unwrap_or(first_no));
+        let restrict = |d: &Dump| -> (Vec<(u64, u64, String)>, Vec<(u64, String, u64, String)>) {
+            (
+                d.blocks.iter().filter(|b| b.0 >= lo_common).cloned().collect(),
+                d.txs.iter().filter(|x| x.0 >= lo_common).cloned().collect(),
+            )
+        };
+        if restrict(&hist) != restrict(&fresh.dump) {
+            return Verdict::Violation(
+                self.key_for("fresh-blocks"),
+                format!("{ctx}: blocks/transactions differ from those of a fresh import up to {t}: {}", first_diff(&restrict(&hist).0, &restrict(&fresh.dump).0)),
+            );
+        }
+        if hist.roots != fresh.dump.roots || hist.legacy_roots != fresh.dump.legacy_roots {
+            return Verdict::Violation(
+                self.key_for("fresh-roots"),
+                format!("{ctx}: block range roots differ from those of a fresh import up to {t}: {} / legacy {}", first_diff(&hist.roots, &fresh.dump.roots), first_diff(&hist.legacy_roots, &fresh.dump.legacy_roots)),
+            );
+        }
+        let ctx_root = self.sut().ctx_root(t).await.map_err(|e| format!("{e:#}"));
+        let cbtx_root = self.sut().cbtx_root(t).await.map_err(|e| format!("{e:#}"));
+        if ctx_root != fresh.ctx_root {
+            return Verdict::Violation(
+                self.key_for("ctx-merkle-root"),
+                format!("{ctx}: CardanoTransactions Merkle root at beacon {t}: {:?}, fresh import: {:?}", ctx_root, fresh.ctx_root),
+            );
+        }
+        if cbtx_root != fresh.cbtx_root {
+            return Verdict::Violation(
+                self.key_for("cbtx-merkle-root"),
+                format!("{ctx}: CardanoBlocksTransactions Merkle root at beacon {t}: {:?}, fresh import: {:?}", cbtx_root, fresh.cbtx_root),
+            );
+        }
+
+        // (3) earlier aligned beacons: the root must not depend on how far beyond the beacon the node imported
+        let lo_b = match self.cfg.prune_keep {
+            Some(k) => t.saturating_sub(k as u64),
+            None => 0,
+        }
+        .max(RANGE);
+        let cands: Vec<u64> = (lo_b..t).filter(|b| b % RANGE == 0 || b % RANGE == RANGE - 1).collect();
+        let mut chosen = BTreeSet::new();
+        if !cands.is_empty() {
+            chosen.insert(cands[pick_index(beacons.0, cands.len())]);
+            chosen.insert(cands[pick_index(beacons.1, cands.len())]);
+        }
+        for b in chosen {
+            let fresh_b = self.fresh(b).await;
+            let ctx_b = self.sut().ctx_root(b).await.map_err(|e| format!("{e:#}"));
+            let cbtx_b = self.sut().cbtx_root(b).await.map_err(|e| format!("{e:#}"));
+            self.labels.insert("earlier-beacon-compared".into());
+            if ctx_b != fresh_b.ctx_root {
+                return Verdict::Violation(
+                    self.key_for("ctx-merkle-root-earlier-beacon"),
+                    format!("{ctx}: node imported up to {t}; CardanoTransactions root at beacon {b}: {:?}, node that imported only up to {b}: {:?}", ctx_b, fresh_b.ctx_root),
+                );
+            }
+            if cbtx_b != fresh_b.cbtx_root {
+                return Verdict::Violation(
+                    self.key_for("cbtx-merkle-root-earlier-beacon"),
+                    format!("{ctx}: node imported up to {t}; CardanoBlocksTransactions root at beacon {b}: {:?}, node that imported only up to {b}: {:?}", cbtx_b, fresh_b.cbtx_root),
+                );
+            }
+        }
+        Verdict::Ok
+    }
+
+    /// One `Import` operation. Returns a verdict.
+    pub async fn import(&mut self, i: usize, sel: &TargetSel, raw: u16, mid: &Option<MidFork>, crash: Option<u8>, beacons: (u16, u16)) -> Verdict {
+        let Some(t) = self.target(sel, raw) else {
+            self.shape.push("i-".into());
+            return Verdict::Ok;
+        };
+        let ctx = format!("op #{i} Import({t})");
+        // state before the import (for the classification of the history)
+        let pre = self.sut().dump().await.expect("dump");
+        let chain_before = self.chain();
+        let by_number: BTreeMap<u64, &Blk> = chain_before.iter().map(|b| (b.number, b)).collect();
+        let pre_stale = pre.blocks.iter().any(|(n, s, hx)| by_number.get(n).map(|b| b.slot != *s || &b.hash_hex() != hx).unwrap_or(true));
+        let pre_hi = pre.blocks.last().map(|b| b.0);
+        let pre_min_slot = pre.blocks.iter().map(|b| b.1).min();
+        if pre_stale && pre_hi.is_some_and(|h| h >= t) {
+            self.labels.insert("trigger:import-skipped-with-stale-data".into());
+            self.taint.get_or_insert(KEY_SKIP);
+        }
+        {
+            let mut n = self.node.lock().unwrap();
+            n.take_events();
+            n.scheduled = mid.clone();
+        }
+        if let Some(j) = crash {
+            self.sut().store.arm(j as u32);
+        }
+        let was_deep = self.deep_fork_since_import;
+        let was_fork = self.fork_since_import;
+        let was_restart_since_fork = self.restart_since_fork;
+        self.min_target = self.min_target.max(t);
+        let res = self.sut().import(t).await;
+        self.sut().store.disarm();
+        let fired = self.sut().store.has_fired();
+        let ev: Events = {
+            let mut n = self.node.lock().unwrap();
+            n.scheduled = None;
+            n.take_events()
+        };
+        if ev.mid_fork_applied.is_some() {
+            self.version += 1;
+            self.labels.insert("mid-import-fork".into());
+        }
+        if ev.auto_extended > 0 {
+            self.version += 1;
+            self.labels.insert("waited-at-tip-for-next-block".into());
+        }
+        // triggers of the suspected divergence mechanisms (classification only; the verdict comes from the oracle)
+        if ev.rollback_to_from_after_forwards > 0 {
+            self.labels.insert("trigger:rollback-to-scan-start-after-forwards".into());
+            self.taint.get_or_insert(KEY_RB_FROM);
+        }
+        if let (Some(keep), Some(min_slot)) = (ev.lowest_rollback_keep, pre_min_slot) {
+            let chain_now = self.chain();
+            let rb_slot = if keep == 0 { 0 } else { chain_now.get(keep - 1).map(|b| b.slot).unwrap_or(0) };
+            if rb_slot < min_slot {
+                self.labels.insert("trigger:rollback-below-every-stored-block".into());
+                self.taint.get_or_insert(KEY_BELOW_ALL);
+            }
+        }
+        if ev.rollback_to_origin > 0 && ev.intersect_not_found > 0 {
+            self.labels.insert("resume-point-not-on-chain:fresh-connection".into());
+        } else if ev.intersect_not_found > 0 {
+            self.labels.insert("resume-point-not-on-chain:live-connection".into());
+        }
+        if ev.awaits > 0 {
+            self.labels.insert("reached-tip(await)".into());
+        }
+        if ev.intersect_skipped_no_agency > 0 {
+            self.labels.insert("find-intersect-skipped(no agency)".into());
+        }
+        match res {
+            Err(e) => {
+                let msg = format!("{e:#}");
+                if fired && msg.contains(INJECTED) {
+                    self.labels.insert("crash-injected".into());
+                    self.shape.push("Ic".into());
+                    self.restart();
+                    if was_fork {
+                        self.labels.insert("restart-between-fork-and-import".into());
+                    }
+                    return Verdict::Ok;
+                }
+                if ev.timeouts > 0 {
+                    self.labels.insert("reader-timeout-at-tip".into());
+                    self.shape.push("It".into());
+                    return Verdict::Ok;
+                }
+                self.shape.push("I!".into());
+                let key = match self.taint {
+                    Some(k) => k.to_string(),
+                    None => "import-error".to_string(),
+                };
+                Verdict::Violation(key, format!("{ctx}: import failed although node and store are healthy: {msg}"))
+            }
+            Ok(()) => {
+                let ran = ev.requests > 0;
+                let mut tag = if ran { "I" } else { "i" }.to_string();
+                let v = self.oracle(t, beacons, &ctx).await;
+                if matches!(v, Verdict::Ok) {
+                    if ran && was_deep {
+                        self.labels.insert("fork-below-highest-stored-then-import".into());
+                        self.nontrivial = true;
+                        tag.push('d');
+                    }
+                    if ran && was_fork && was_restart_since_fork {
+                        self.labels.insert("restart-between-fork-and-import".into());
+                        self.nontrivial = true;
+                        tag.push('r');
+                        if was_deep {
+                            self.labels.insert("restart-with-stale-resume-point".into());
+                        }
+                    }
+                    if ev.mid_fork_applied.is_some() {
+                        self.nontrivial = true;
+                        tag.push('m');
+                    }
+                    if ran {
+                        self.fork_since_import = false;
+                        self.deep_fork_since_import = false;
+                        self.restart_since_fork = false;
+                    }
+                    if ev.mid_fork_applied.is_some() {
+                        // a switch that happened after the importer stopped reading is still pending
+                        self.fork_since_import = true;
+                    }
+                }
+                self.shape.push(tag);
+                v
+            }
+        }
+    }
+}
+
+/// run a whole history; returns the report
+pub fn run_case(case: &Case) -> Report {
+    let mut rep = Report::new();
+    let rt = tokio::runtime::Builder::new_current_thread().enable_all().build().expect("runtime");
+    let mut run = Run::new(&case.cfg);
+    let mut verdict = Verdict::Ok;
+    rt.block_on(async {
+        for (i, op) in case.ops.iter().enumerate() {
+            match op {
+                Op::Extend { n, seed } => run.extend(*n as usize, *seed as u64),
+                Op::Fork { sel, raw, extra, seed } => run.fork(sel, *raw, *extra, *seed).await,
+                Op::Restart => {
+                    run.restart();
+                    if run.fork_since_import {
+                        run.restart_since_fork = true;
+                    }
+                    run.shape.push("R".into());
+                }
+                Op::Import { sel, raw, mid, crash, beacons } => {
+                    let v = run.import(i, sel, *raw, mid, *crash, *beacons).await;
+                    if let Verdict::Violation(..) = v {
+                        verdict = v;
+                        break;
+                    }
+                }
+            }
+        }
+    });
+    for l in &run.labels {
+        rep.label(l.clone());
+    }
+    if run.cfg.prune_keep.is_some() {
+        rep.label("pruning-on");
+    }
+    if run.checks > 0 {
+        rep.label("oracle-evaluated");
+    }
+    if run.nontrivial {
+        rep.nontrivial(format!("{}|p{}", run.shape.join(","), run.cfg.prune_keep.is_some() as u8));
+    }
+    if let Verdict::Violation(key, what) = verdict {
+        rep.violation(key, what);
+    }
+    drop(run);
+    drop(rt);
+    rep
+}
+
+// ------------------------------------------------------------------------------------------------ entry
 
 pub fn run(args: &Args) -> i32 {
-    let check = Check::new("C13", "exploration", args);
-    check.inconclusive("check not implemented yet".into());
+    let mut check = Check::new("C13", "exploration", args);
+    check
+        .rule(
+            "a case = stack configuration (poll size, chunk size, pruning, security parameter) + a history of <= 25 operations \
+             (Extend, Fork by selector, Import with optional mid-import chain switch and optional store failure at the j-th \
+             mutating call followed by a restart, Restart) executed against the real importer stack over a file-backed sqlite \
+             database and a chain-sync model; non-trivial = the history contains a successful, oracle-checked import after a \
+             fork below the highest stored block, or after a restart between a fork and the import, or with a chain switch \
+             during the import; distinct = distinct sequence of operation outcome tags",
+        )
+        .assume("SimNode models the chain-sync follower contract of the real PallasChainReader (validated against the repo's FakeChainReader scenarios in section simnode-validation)")
+        .assume("chain switches never shorten the chain (Ouroboros chain selection); block numbers are consecutive; no block at slot 0")
+        .assume("with pruning enabled no chain switch is deeper than the number of blocks to keep (documented meaning of network_security_parameter)")
+        .assume("MKTree / MKMap (mithril-common crypto_helper) are the trusted base of the independent root recomputation")
+        .assume("a store failure is injected before the call reaches the database; each store call is one sqlite transaction")
+        .assume("beacons compared for import-progress independence are aligned (b mod 15 in {0, 14}) as produced by the signing configurations with a step multiple of 15")
+        .require_label("fork-below-highest-stored-then-import")
+        .require_label("fork:at-range-boundary")
+        .require_label("restart-between-fork-and-import")
+        .require_label("crash-injected")
+        .require_label("mid-import-fork")
+        .require_label("earlier-beacon-compared");
+    let t = check.tier;
+
+    if !check.is_replay() {
+        if let Err(e) = validate::validate_simnode() {
+            check.inconclusive(format!("SimNode does not reproduce the FakeChainReader scenarios: {e}"));
+            return check.finish();
+        }
+        check.note_section("simnode-validation", serde_json::json!({"scenarios": validate::SCENARIOS, "kind": "model validation", "result": "ok"}));
+    }
+
+    check.section("histories", case_strategy, t.pick(160, 6000), run_case);
+
     check.finish()
 }
